@@ -151,6 +151,24 @@ Exclusive == (WorkerAccessPending => WorkerOwns) /\ (IOBusy => IOOwns)
 NoUnderflow == (pi = "ex0" /\ b.final) => b.now > 0
 LockDiscipline == /\ pw \in {"g1", "gp", "su1", "wr1", "wrp"} => m = "w"
                   /\ pi \in {"wu1", "wup", "sr1"} => m = "io"
+\* ---- the per-buffer half of termination (C04) -------------------------------------------------
+\* Fairness for the two threads WHILE THEY ARE HERE (strong, as in Pipeline.tla: a lock is only
+\* intermittently free while the neighbour spins through spurious wake-ups); the arrivals of the
+\* visitor and the end of input elsewhere are the environment's and carry no fairness.
+Visit == IOLock \/ IOWaitTest \/ IOEnqueue \/ IOWake \/ IOBegin \/ IOExport \/ IOExportEnd
+         \/ (\E kind \in {"FULL", "FINAL"}, nb \in 1..MaxBlocks : IOLoad(kind, nb))
+         \/ IOLoadEnd \/ IOSetReady \/ IOAfterUnlock \/ Leave
+FairSpec == Spec /\ SF_ovars(Worker) /\ SF_ovars(Visit)
+\* every visit of the I/O thread ends: it is never stuck at this buffer
+VisitEnds == (pi # "away") ~> (pi = "away")
+\* once the buffer is retired its worker finishes
+WorkerEnds == (s = "INV") ~> (pw = "done")
+\* a loaded buffer is eventually handed back (transformed completely) or the visitor never returns for it:
+\* the worker never sits on a READY buffer for ever
+WorkerHandsBack == (s = "READY") ~> (s # "READY")
+\* Together with "the I/O thread makes at most (number of chunks + T) visits" (each visit either
+\* consumes a chunk of the finite input or retires a buffer) these give <>Done for every T.
+
 \* a retired buffer is never revived, and the input never "un-ends"
 Retired == [][(s = "INV" => s' = "INV") /\ (ov => ov')]_ovars
 =============================================================================
